@@ -65,6 +65,10 @@ CHECKS = {
          "Generated table names (empty, dots, slashes, `..`, 300 bytes, case pairs, names equal to file names) and column sets from an adversarial pool under sub-partition size limits from 1 byte (one column per file) to unlimited: after ingest, flush and a restart every stored column and absent names sorting before / between / after stored ones are read one by one in generated order and must equal the model or read as NULL; every file must lie under tables/<one directory per table>/, directories are not shared; sanitize_table_name is checked for injectivity, separators, leading dots and length on generated name pairs.",
          "DESIGN.md 4 C15", "Names containing a double quote are not generated (SQL quoting); private helpers are reached through hook H3 wrappers.",
          "property-based testing (proptest) against a reference model plus a validity predicate over the directory listing"),
+ "C17": ("exploration",
+         "Differential: one database is served by server::run on a loopback port; generated histories of /insert_bin posts and queries through /query, /query_cols and /multi_query_cols (JSON; binary with and without xor float compression and a mantissa), including failing queries, are compared request by request with run_query on the same handle: same names in order, same values (exact i64/f64 after parsing JSON with round-trip float parsing; non-finite floats are null in JSON; NULL floats are the reserved NaN in binary), failing queries give a 4xx/5xx status and the server keeps answering.",
+         "DESIGN.md 4 C17", "One server per shard process with per-case table names (actix does not release a stopped server's worker threads promptly); only the data endpoints are exercised; binary responses carry columns in a map, so only the name set is compared there.",
+         "property-based testing (proptest), differential oracle (HTTP vs embedded API)"),
 }
 
 NOT_YET = {
